@@ -17,6 +17,7 @@ import vlib
 LEVEL = "model_checking"
 TRACE_MODULE = "RawVectorTrace"
 TRACE_CFG = "RawVectorTrace.cfg"
+OBSERVED_ONLY = {"dynamic-array", "heap:dynamic-array-block-mismatch"}
 
 
 def build():
@@ -25,6 +26,70 @@ def build():
 
 def signature(b):
     return "C07:%s:%s" % (b["op"], "+".join(sorted(b["why"])))
+
+
+def run_resuming(binary, args, out_path, first_arg_index, timeout, max_restarts=40):
+    """Runs the harness; when it is stopped inside a driven call (sanitizer abort, crash, hang) the
+    complete lines are kept, the abort is remembered, and the harness is restarted at the history
+    after the aborted one, so that the rest of the histories are still executed and judged.
+    Returns (list of (rc, output, truncated_tail, history_index), path of the merged complete trace)."""
+    aborts = []
+    merged = out_path
+    seg = 0
+    start = 0
+    with open(merged, "w") as mf:
+        while True:
+            seg_path = "%s.seg%d" % (out_path, seg)
+            a = list(args)
+            a[a.index("@OUT")] = seg_path
+            a += [start] if first_arg_index is None else []
+            rc, out = vlib.run_harness(binary, a, timeout=timeout)
+            lines, tail = vlib.check_trace_file(seg_path) if os.path.exists(seg_path) else ([], None)
+            # drop an incomplete last history (from its reset line on) when the run was aborted
+            last_h = None
+            for l in lines:
+                if l.startswith('{"e":"reset"'):
+                    last_h = json.loads(l)["h"]
+            keep = lines
+            if rc != 0 and last_h is not None:
+                idx = max(i for i, l in enumerate(lines) if l.startswith('{"e":"reset"'))
+                aborts.append((rc, out, tail, last_h, lines[idx:]))
+                keep = lines[:idx]
+            elif rc != 0:
+                aborts.append((rc, out, tail, None, lines))
+                keep = []
+            for l in keep:
+                mf.write(l + "\n")
+            try:
+                os.unlink(seg_path)
+            except OSError:
+                pass
+            if rc == 0 or last_h is None or seg >= max_restarts:
+                break
+            start = last_h + 1
+            seg += 1
+    return aborts, merged
+
+
+def report_aborts(ctx, aborts, what):
+    for rc, out, tail, h, hist_lines in aborts:
+        op = "?"
+        if tail:
+            m = re.search(r'"op":"(\w+)"', tail) or re.search(r'"e":"(\w+)"', tail)
+            op = m.group(1) if m else "?"
+        kind = {66: "sanitizer", 67: "crash", 68: "hang", 124: "timeout"}.get(rc, "exit%d" % rc)
+        san = re.search(r"(ERROR: \w+Sanitizer: [^\n]*|runtime error: [^\n]*)", out)
+        script = script_of(hist_lines)
+        if tail:
+            try:
+                script += script_of([tail + "}"])
+            except ValueError:
+                pass
+        if op in ("dctor", "dfill", "ddestroy"):
+            ctx.extra.setdefault("observations", []).append({"op": op, "why": [kind], "history": h})
+            continue
+        ctx.reject("C07:%s:%s" % (op, kind), "%s during %s (%s, history %s): %s" % (
+            kind, op, what, h, san.group(1) if san else out[-300:]), {"script": script, "partial_line": tail})
 
 
 def judge_file(ctx, path, what, rc, out):
@@ -49,6 +114,14 @@ def judge_file(ctx, path, what, rc, out):
     bad = vlib.judge_trace(ctx, TRACE_MODULE, TRACE_CFG, path)
     ctx.evaluations += len(lines)
     for b in bad:
+        # fcppt::container::dynamic_array is an anchor file of C07 but not named in its statement
+        # ("raw_vector and buffer"): disagreements there are observed only, never an alarm
+        obs = [w for w in b["why"] if w in OBSERVED_ONLY]
+        if obs:
+            ctx.extra.setdefault("observations", []).append({"line": b["l"], "op": b["op"], "why": obs})
+            b["why"] = [w for w in b["why"] if w not in OBSERVED_ONLY]
+            if not b["why"]:
+                continue
         if "HARNESS-PRECONDITION" in b["why"]:
             raise vlib.Infra("harness emitted an operation outside the API precondition at line %d of %s" % (b["l"], path))
         hist = vlib.history_of(lines, b["l"])
@@ -124,8 +197,9 @@ def run(ctx):
     binary = build()
     # 3. spec -> code
     rpath = os.path.join(ctx.workdir, "replayed.ndjson")
-    rc, out = vlib.run_harness(binary, ["replay", spath, rpath], timeout=1500)
-    lines = judge_file(ctx, rpath, "TLC-generated script", rc, out)
+    aborts, rpath = run_resuming(binary, ["replay", spath, "@OUT"], rpath, None, 1500)
+    report_aborts(ctx, aborts, "TLC-generated script")
+    lines = judge_file(ctx, rpath, "TLC-generated script", 0, "")
     ctx.traces_validated += len(scripts)
     if lines:
         count_classes(ctx, lines[:200000])
@@ -133,8 +207,9 @@ def run(ctx):
     # 4. code -> spec
     nh, ml = (100000, 60) if thorough else (4000, 60)
     tpath = os.path.join(ctx.workdir, "recorded.ndjson")
-    rc, out = vlib.run_harness(binary, ["record", tpath, ctx.seed, nh, ml], timeout=3000)
-    lines = judge_file(ctx, tpath, "random history", rc, out)
+    aborts, tpath = run_resuming(binary, ["record", "@OUT", ctx.seed, nh, ml], tpath, None, 3000)
+    report_aborts(ctx, aborts, "random history")
+    lines = judge_file(ctx, tpath, "random history", 0, "")
     ctx.traces_validated += nh
     if lines:
         count_classes(ctx, lines[:300000])
